@@ -391,6 +391,10 @@ func (fr *fileRun) read(data []byte, failAt int) (ids []int, res sx) {
 	case 2:
 		src = bufio.NewReaderSize(bytes.NewReader(data), 37)
 	}
+	// the error the callback fails with is the caller's business: a private sentinel, or - just as legitimately - one of the
+	// errors the reader itself meets at the end of its input
+	cbErr := []error{errSentinel, io.EOF, io.ErrUnexpectedEOF, errSentinel}[(fr.runs/3)%4]
+	cbFired := false
 	err := avro.ReadFile(src, out, func(p unsafe.Pointer, rb *avro.ResourceBank) error {
 		d := dumpVal(reflect.NewAt(fr.t, p).Elem())
 		key := d.String()
@@ -403,7 +407,8 @@ func (fr *fileRun) read(data []byte, failAt int) (ids []int, res sx) {
 		ids = append(ids, id)
 		rb.Close()
 		if idx == failAt {
-			return errSentinel
+			cbFired = true
+			return cbErr
 		}
 		idx++
 		return nil
@@ -417,9 +422,9 @@ func (fr *fileRun) read(data []byte, failAt int) (ids []int, res sx) {
 	switch {
 	case err == nil:
 		res = A("ok")
-	case err == errSentinel:
+	case cbFired && err == cbErr:
 		res = A("cberr")
-	case errors.Is(err, errSentinel):
+	case cbFired && errors.Is(err, cbErr):
 		res = A("cbwrapped")
 	default:
 		res = A("err")
